@@ -1058,6 +1058,11 @@ class ManifestRecursiveLoader:
 
                 fullpath = os.path.join(relpath, e.path)
                 if path_starts_with(fullpath, path):
+                    if fullpath == mpath:
+                        # a Manifest can not hold a (valid) entry for
+                        # itself, just drop it
+                        entries_to_remove.append(e)
+                        continue
                     if fullpath in out:
                         # compare the two entries
                         ret, diff = verify_entry_compatibility(
